@@ -51,3 +51,34 @@ Theorem C06_await_orig_refuted : exists fid run status e,
   await_release_orig fid run e = true /\ e_type e <> int32 status.
 Proof. exact await_orig_refuted. Qed.
 Print Assumptions C06_await_orig_refuted.
+
+(* WHO RECEIVES. For every configuration and every history (any faults, crashes, rewinds, duplicated deliveries): whatever
+   position a consumer [u] reads from, the event Recv hands it is an event of [u]'s own topic, and it announces a committed
+   write whose routing topic is that topic — a step consumer / inserter of status s only ever receives announcements of
+   writes that left a run Initiated or Running at s; hook and paused-retry consumers only run-state changes (Paused, Cancelled,
+   Completed, DataDeleted); the delete consumer only deletion requests. *)
+From WF Require Import model.EngineBase model.Engine proofs.EngineInv proofs.EngineTokens proofs.EngineProps proofs.Delivery.
+Theorem C06_who_receives : forall c ops, hist_ok ops -> forall u pos idx e,
+  next_event (unit_topic u) (w_log (fst (run_ops c ops))) 0 pos = Some (idx, e) ->
+  exists r, In r (w_hist (fst (run_ops c ops))) /\ ev_of e (route 0%N r) /\ route_topic r = unit_topic u.
+Proof.
+  intros c ops H u pos idx e Hn. destruct (next_event_spec _ _ _ _ _ _ Hn) as (_ & A & B & _).
+  rewrite Nat.sub_0_r in A. apply nth_error_In in A. destruct (p_nothing_invented c ops H e A) as (r & Hr & Ev).
+  exists r. split; [exact Hr|]. split; [exact Ev|]. destruct Ev as (_ & E2 & _). cbn in E2. congruence.
+Qed.
+Print Assumptions C06_who_receives.
+
+(* what "routing topic" means, state by state *)
+Theorem C06_route_topic_cases : forall r,
+  (route_topic r = TStatus (r_status r) <-> ~ In (rs_code (r_state r)) [3; 4; 5; 6; 7]) /\
+  (route_topic r = TDelete <-> rs_code (r_state r) = 7) /\
+  (route_topic r = TRunStateChange <-> In (rs_code (r_state r)) [3; 4; 5; 6]).
+Proof.
+  intros r. unfold route_topic, route_topic_code.
+  destruct (rs_code (r_state r) =? 3) eqn:E3; destruct (rs_code (r_state r) =? 4) eqn:E4;
+  destruct (rs_code (r_state r) =? 6) eqn:E6; destruct (rs_code (r_state r) =? 5) eqn:E5;
+  destruct (rs_code (r_state r) =? 7) eqn:E7; cbn [orb];
+  rewrite ?Z.eqb_eq, ?Z.eqb_neq in *; cbn [In]; repeat split; intros; try discriminate; try lia; try tauto;
+  try (exfalso; lia).
+Qed.
+Print Assumptions C06_route_topic_cases.
